@@ -1014,7 +1014,7 @@ class C05(Prop):
                   "fetchline", "fetchline", "getline", "get"]
         for m in NATURAL:
             out.append(self.mk("big-natural-mmap." + m, unit, m, 0, bigops, rep=rep))
-        for kind in ("file", "open", "pipe", "cmd"):
+        for kind in ("file", "open", "pipe", "cmd", "dir", "opendir"):   # dir/opendir: fix 5d94071, a directory is refused with eslENOTFOUND + message
             out.append(dict(self.mk("openfail-" + kind, b"abc\n", "allfile", 4, ["openfail kind=" + kind, "getline"]), nomonitor=True))
         # known finding: the pointer handed out by `get` under the stable anchor is read again (`checkstable`) after the refill of `getline`
         # has reallocated the window: heap-use-after-free under ASan as long as the defect is in the tree (reported only then)
@@ -1025,6 +1025,15 @@ class C05(Prop):
             # every paged opener with page sizes 1..64 (what the SELEX/PHYLIP readers do) - the harness re-reads every pointer after every operation
             out.append(dict(self.mk("reg-stable-realloc", b"ab\ncd\nef\n", "stream", 2, ["setstable o=0", "get", "getline", "checkstable", "raise o=0"]), nomonitor=True))
             blk = b"".join(b"seq%02d  ACGUACGUAC%s\n" % (i, b"GU" * (i % 5)) for i in range(40))
+            # the window position is compared exactly (`window`): after the last anchor is raised the stream must move on again (bf->stable cleared,
+            # shift resumes), and before it the window must stay put
+            for m in ("stream", "pipe", "file"):
+                for ps in (1, 2, 5, 16, 64):
+                    blk2 = blk * 5        # 200 lines: after the last raise the reader goes on far beyond what the doubled allocation holds
+                    ops = self.stable_block_ops(blk2)
+                    k1 = next(i for i, o in enumerate(ops) if o.startswith("raise"))
+                    ops = ops[:k1] + ["window"] + ops[k1:k1 + 1] + ["getline", "getline", "window"] + ops[k1 + 1:] + ["getline"] * 150 + ["window"]
+                    out.append(self.mk("reg-stable-release.%s.%d" % (m, ps), blk2, m, ps, ops, nomonitor=True))
             for m in ("stream", "pipe", "file"):
                 for ps in (1, 2, 3, 7, 16, 17, 32, 33, 64, 65, 128, 129):
                     out.append(self.mk("reg-stable-block.%s.%d" % (m, ps), blk, m, ps, self.stable_block_ops(blk)))
